@@ -364,13 +364,24 @@ def run(ctx):
     ctx.bounds.update({'proxy': 'one serialized message handled from every state with 0..2 pending requests (tags symbolic, ordered, within the counter; each port open or closed; cleanup cursor absent or symbolic); '
                                 'inductive: the representation invariant is re-established by every step',
                        'session': 'one node frame on an authenticated session (target advertised); the reply task of a Call with its receiver answering, failing or timing out',
-                       'outside': 'the end-to-end composition of C20 over two nodes and a byte stream: per-sender order across two nodes, the announcing side (which local actors / group '
-                                  'changes a session advertises to its peer), proxies stopping when the session closes (they are linked children of the session: C05); '
+                       'outside': 'the end-to-end composition of C20 over two nodes and a byte stream: per-sender order across two nodes, proxies stopping when the session closes (they are linked children of the session: C05); '
                                   'more than 16 pending requests per cleanup round, wrap-around of the 64-bit tag counter'})
     ctx.assumptions += ['BTreeMap contract (ordered map); ActorRef::cast to the session succeeds or fails arbitrarily; RpcReplyPort::is_closed is arbitrary but fixed per port within a step',
                         'the message_tag counter is below 2^63 (no wrap-around within the claim)']
     check_proxy(ctx, prog)
     check_session(ctx, prog)
+    import C20_announce
+    import C20_announce_replay
+    C20_announce.check(ctx, prog)
+    try:
+        bad, n = C20_announce_replay.battery()
+        ctx.translator_validated += n
+        if bad:
+            rec = {'name': 'announce.native_battery', 'group': 'C20.announce', 'solver_s': 0.0, 'status': 'cex'}
+            ctx.obligations.append(rec)
+            ctx.handle_cex(rec['name'], 'C20.announce.native', None, lambda _m: {'replayed': True, 'detail': 'real handle_supervisor_evt on lifecycle / group events: %s' % bad[:3], 'replay': {'which': 'announce_battery'}}, rec)
+    except RuntimeError as e:
+        ctx.inconclusive.append('announce native battery unavailable: %s' % str(e)[-300:])
     import C20_mirror
     import C20_mirror_replay
     C20_mirror.check(ctx, prog)
@@ -389,6 +400,14 @@ def replay_file(path):
     import json
     import C20_replay
     d = json.load(open(path))
+    if d['replay'].get('which') in ('announce', 'announce_battery'):
+        import C20_announce_replay
+        bad, _n = C20_announce_replay.battery()
+        if d['replay']['which'] == 'announce':
+            rp = d['replay']['rp']
+            bad += C20_announce_replay.evaluate(rp['advertised'], rp['remotable'], rp['event'])[0]
+        print('native handle_supervisor_evt announce arms:', bad)
+        return 1 if bad else 0
     if d['replay'].get('which') in ('mirror', 'mirror_battery'):
         import C20_mirror_replay
         bad, _n = C20_mirror_replay.battery()
